@@ -710,4 +710,11 @@ end
 
 end Loc
 
+/-- `AsLocation` is the recursive parser started with `input.length + 2` units of fuel on an
+empty stack -/
+theorem parseLocation_of_run (input rest : Bytes) (l : Loc)
+    (h : LocParse.loc (input.length + 2) ⟨input, []⟩ = (.ok l, ⟨rest, []⟩)) :
+    parseLocation input = .ok (l, rest) := by
+  simp only [parseLocation, P.run', ExceptT.run, StateT.run, h]
+
 end Gts
